@@ -5,6 +5,9 @@
 //! bounding-box bounds and through half-integer offsets, oblique lines with dyadic slopes through vertices and
 //! through edge interiors; every line with its origin before / inside / behind the curve and in both senses.
 //! The oracle is written independently of the code under check (own Cramer formula, own sort / merge).
+//! Plus: lines EXACTLY through a vertex one of whose edges makes 1e-3 / 1e-4 / 1e-5 rad with the line (the two per-edge
+//! parameters at the vertex differ by rounding: one crossing, no duplicate), and regular polygons with lines through two
+//! vertices (inexact coordinates: the slab test of the accelerated search works at rounding level).
 use super::{close, Report};
 use crate::common::Intersection;
 use crate::geom2::polyline2::{farthest_point_direction_distance, max_intersection, polyline_intersections, ray_intersect_with_edge, spanning_ray};
@@ -281,8 +284,71 @@ fn check_surface_point(r: &mut Report, name: &str, curve: &Curve2, sp: &SurfaceP
         || format!("{} {:?} x surface point ({:?}, {:?}) normal ({:?}, {:?}): got {:?}, expected {:?}", name, v.iter().map(|q| (q.x, q.y)).collect::<Vec<_>>(), sp.point.x, sp.point.y, d.x, d.y, got, expected));
 }
 
+
+// ---------------------------------------------------------------- lines exactly through a vertex, one incident edge nearly parallel
+/// closed pentagon given in the local frame (a along `d`, b along the left normal of `d`) of the vertex `v`:
+/// u = (-len, theta*len) -> v = (0,0) -> (1.5,-3.75) -> (-6.5,-4) -> (-7.5,2) -> u.  The line {b = 0} passes exactly through
+/// v; the edge u-v makes the angle atan(theta) with it; the only other crossing is on the edge (-6.5,-4)-(-7.5,2).
+/// `side` = -1 mirrors the polygon in the line (u below the line), `rev` reverses the vertex order (v becomes the START
+/// of the nearly parallel edge).
+fn near_parallel_polygon(v: &Point2, d: &Vector2, theta: f64, len: f64, side: f64, rev: bool) -> Vec<Point2> {
+    let n = Vector2::new(-d.y, d.x);
+    let at = |a: f64, b: f64| p(v.x + a * d.x + side * b * n.x, v.y + a * d.y + side * b * n.y);
+    let mut pts = vec![at(-len, theta * len), *v, at(1.5, -3.75), at(-6.5, -4.0), at(-7.5, 2.0), at(-len, theta * len)];
+    if rev { pts.reverse(); }
+    pts
+}
+fn near_parallel_vertex_lines(r: &mut Report) {
+    let dirs = [(1.0, 0.25), (1.0, 0.0), (0.0, -1.0), (-0.5, 1.0), (2.0, -1.0), (1.0, 1.0)];
+    let anchors = [p(3.5, 1.75), p(0.0, 0.0), p(-20.25, 13.5)];
+    for theta in [1e-3, 1e-4, 1e-5] { for len in [4.2, 1.3, 9.7] { for (dx, dy) in dirs { for v in anchors.iter() {
+        for side in [1.0, -1.0] { for rev in [false, true] {
+            let d = Vector2::new(dx, dy);
+            let pts = near_parallel_polygon(v, &d, theta, len, side, rev);
+            let line = Polyline::new(pts.clone(), None);
+            let curve = Curve2::from_points(&pts, 1e-6, false).ok().filter(|c| c.points().len() == pts.len());
+            r.check(curve.is_some(), "Curve2::from_points keeps the vertex list of a duplicate-free polyline", || format!("near-parallel pentagon {:?}", pts.iter().map(|q| (q.x, q.y)).collect::<Vec<_>>()));
+            // origin = v - k*d is exact (dyadic v, d, k): the line passes EXACTLY through the vertex v
+            for k in [0.0, 2.0, 8.0, 32.0, -4.0, -16.0] { for s in [1.0, -1.0, 0.5] {
+                let ray = Ray2::new(p(v.x - k * d.x, v.y - k * d.y), Vector2::new(s * d.x, s * d.y));
+                check_line(r, "pentagon with an edge nearly parallel to a line through its vertex", &pts, &line, curve.as_ref(), &ray);
+            } }
+        } }
+    } } } }
+}
+
+// ---------------------------------------------------------------- regular polygons, lines through two vertices
+/// A line through two non-adjacent vertices of a regular polygon.  The vertex coordinates are inexact (cos / sin) and the
+/// line touches the bounding boxes of the edges at those vertices only at a corner, so the slab test of the accelerated
+/// search works at rounding level there.  Own clause names (prefix): on the unfixed tree the search prunes such edges.
+fn regular_polygon_chords(r: &mut Report) {
+    for n in [5usize, 6, 7, 8, 9, 12, 16, 24] { for radius in [1.0, 2.5, 10.0] { for (cx, cy) in [(0.0, 0.0), (3.25, -1.5)] {
+        let mut pts: Vec<Point2> = (0..n).map(|k| { let a = 2.0 * std::f64::consts::PI * (k as f64) / (n as f64); p(cx + radius * a.cos(), cy + radius * a.sin()) }).collect();
+        pts.push(pts[0]);
+        let line = Polyline::new(pts.clone(), None);
+        for i in 0..n { for j in 0..n {
+            let gap = (i + n - j) % n;
+            if gap < 2 || gap > n - 2 { continue; }
+            let (a, b) = (pts[i], pts[j]);
+            let ray = Ray2::new(a, b - a);
+            let hits = brute(&pts, &ray.origin, &ray.dir);
+            let expected = match distinct(&hits) { Some(e) => e, None => continue };
+            r.case();
+            let got = polyline_intersections(&line, &ray);
+            let desc = || format!("regular {}-gon radius {:?} centre ({:?}, {:?}) {:?}; line from vertex {} {:?} to vertex {} {:?} (origin = vertex {}, dir = their difference); polyline_intersections returned {:?}; exhaustive per-edge hits {:?}",
+                n, radius, cx, cy, pts.iter().map(|q| (q.x, q.y)).collect::<Vec<_>>(), i, (a.x, a.y), j, (b.x, b.y), i, got, hits);
+            r.check(hits.iter().all(|(bt, _)| got.iter().any(|(t, _)| (t - bt).abs() <= DEDUP)),
+                "[slab test rounding at a box corner] no per-edge intersection is missed for a line through two vertices of a regular polygon", desc);
+            r.check(got.iter().all(|(t, e)| hits.iter().any(|(bt, be)| be == e && close(*bt, *t))) && got.windows(2).all(|w| w[1].0 - w[0].0 >= DEDUP),
+                "regular polygon, line through two vertices: every reported parameter is a per-edge hit, ascending without duplicates (1e-8)", desc);
+            r.check(spanning_ray(&line, &ray).is_some() == (expected.len() == 2),
+                "[slab test rounding at a box corner] spanning ray produced exactly when the per-edge computation finds two crossings (line through two vertices of a regular polygon)", desc);
+        } }
+    } } }
+}
+
 pub fn run() -> Option<Report> {
-    let mut r = Report::new("43 polylines with 5..=40 edges on integer grids (zig-zags, combs, staircases, U shapes, closed rectangles / diamonds / octagons / star, rectangular spirals, open chains whose end vertex is the unique extreme) x per polyline: axis-parallel lines through every vertex coordinate, the box bounds, one unit outside and fractional offsets (5 origins before / inside / behind / on the box, 4 signed speeds) and oblique lines of 13 dyadic slopes (5 of them nearly parallel to edges, direction determinants 2^-10 .. 2^-16) through every third vertex, the last vertex and 4 off-grid anchors (origin on the anchor and 16 steps before / behind); surface points = the same lines with a unit normal; lines whose distinct crossings are closer than 1e-6 are excluded");
+    let mut r = Report::new("43 polylines with 5..=40 edges on integer grids (zig-zags, combs, staircases, U shapes, closed rectangles / diamonds / octagons / star, rectangular spirals, open chains whose end vertex is the unique extreme) x per polyline: axis-parallel lines through every vertex coordinate, the box bounds, one unit outside and fractional offsets (5 origins before / inside / behind / on the box, 4 signed speeds) and oblique lines of 13 dyadic slopes (5 of them nearly parallel to edges, direction determinants 2^-10 .. 2^-16) through every third vertex, the last vertex and 4 off-grid anchors (origin on the anchor and 16 steps before / behind); surface points = the same lines with a unit normal; lines whose distinct crossings are closer than 1e-6 are excluded; NEAR-PARALLEL: 648 closed pentagons (3 vertex positions x 6 dyadic line directions x nearly parallel edge of length 1.3 / 4.2 / 9.7 at 1e-3, 1e-4, 1e-5 rad, on either side, vertex = end or start of that edge) x 18 lines EXACTLY through the vertex (origin 0, 2, 8, 32, -4, -16 steps before it, speeds 1, -1, 0.5); REGULAR POLYGONS: 5,6,7,8,9,12,16,24-gons of radius 1, 2.5, 10 at 2 centres x every line through two non-adjacent vertices (inexact coordinates)");
     for (name, pts) in polylines() {
         let line = Polyline::new(pts.clone(), None);
         let curve = Curve2::from_points(&pts, 1e-6, false).ok();
@@ -300,5 +366,7 @@ pub fn run() -> Option<Report> {
             }
         }
     }
+    near_parallel_vertex_lines(&mut r);
+    regular_polygon_chords(&mut r);
     Some(r)
 }
